@@ -658,3 +658,28 @@ def check_division_guards(ctx: CheckContext, p: Program, r: Resolver, funcs: Lis
             ctx.ob(rule, f"{f.qualname}:{norm_stmt(test)}", f"{f.module.relpath}:{test.lineno}", ok,
                    "" if ok else f"`{ast.unparse(test)}` guards a division by `{xt}` but admits {xt} == 0: the result is NaN/inf (0/0) instead of the fallback value")
     return n
+
+
+def check_subzone_loops(ctx: CheckContext, p: Program, r: Resolver, rule: str = "LOOPVAR"):
+    """Inside a loop over a zone's sub-zones in the handlers' module, every call that targets a zone (a handler, a helper of the module
+    or an integration entry function) is applied to the loop variable, not to the enclosing zone."""
+    ctx.rule(rule, "in a loop over zone.subzones.values() every targeting call takes the sub-zone (the loop variable) as its zone argument: "
+                   "re-targeting the parent once per child leaves the children without records")
+    main = p.modules["OpenPinch.main"]
+    reg = Registry(p, r)
+    n = 0
+    for f in [x for x in p.all_funcs if x.module is main and not isinstance(x.node, ast.Lambda)]:
+        zp = reg.zone_param(f)
+        if zp is None:
+            continue
+        for loop in [x for x in body_nodes(f) if isinstance(x, ast.For) and isinstance(x.target, ast.Name) and _is_subzones_iter(x.iter, zp)]:
+            v = loop.target.id
+            for c in [x for x in ast.walk(loop) if isinstance(x, ast.Call)]:
+                tg = [t for t in r.resolve_call(f, c) if isinstance(t, FuncInfo) and reg.zone_param(t) is not None]
+                if not tg or not c.args or not isinstance(c.args[0], ast.Name):
+                    continue
+                n += 1
+                ok = c.args[0].id == v
+                ctx.ob(rule, f"{f.qualname}:{norm_stmt(c)}", f"{f.module.relpath}:{c.lineno}", ok,
+                       "" if ok else f"inside the loop over the sub-zones `{v}`, {tg[0].name}() is applied to '{c.args[0].id}' instead of the sub-zone")
+    return n
